@@ -43,6 +43,9 @@ func strippedOnReceipt(ver string) []string {
 // tamperClass names the tampering in canonical keys: the elements and the hash mode.
 func tamperClass(r *rec) string {
 	t := sorted(r.T)
+	if len(t) == 0 {
+		t = []string{"untouched"}
+	}
 	if len(t) > 3 {
 		t = append(t[:3:3], fmt.Sprintf("+%d", len(r.T)-3))
 	}
@@ -279,14 +282,24 @@ func runC04(r *rec, idx int, seed int64) *hx.Result {
 				valid[r.Signers[n]], err == nil)
 		}
 	}
-	if origVerdict == nil {
+	{
+		// the validity of the signatures is the original's: an event that did not verify before (a required
+		// server never signed) does not verify in its redacted form either
 		var verdict error
 		if pan := guard(func() { verdict = gmsl.VerifyEventSignatures(context.Background(), qe, verifier, identityQuerier) }); pan != "" {
 			return fail("C04/panic/VerifyEventSignatures", "VerifyEventSignatures panics on the parsed event: "+pan, nil, pan)
 		}
-		wantOK := len(r.Valid) == len(r.Signers)
+		wantOK := origVerdict == nil && len(r.Valid) == len(r.Signers)
+		const via = "join_authorised_via_users_server"
+		if _, carried := r.Proto.Con[via]; carried && r.Red && !setOf(r.ConK)[via] {
+			// Room version 8 has restricted joins but its redaction algorithm does not keep the key naming the
+			// authorising user (room version 9 was made to repair exactly that): the redacted form of such a join
+			// no longer says that a second server must have signed. A property of the protocol, not of the library:
+			// nothing is demanded of the verdict here (room versions <= 7 ignore the key in both forms).
+			return nil
+		}
 		if (verdict == nil) != wantOK {
-			return fail(fmt.Sprintf("C04/VerifyEventSignatures/%s:model-valid=%v", class, wantOK),
+			return fail(fmt.Sprintf("C04/VerifyEventSignatures/%s/original-verifies=%v:model-valid=%v", class, origVerdict == nil, wantOK),
 				fmt.Sprintf("VerifyEventSignatures on the parsed event (room version %s, tampering %v, hash %s): %v", r.Ver, sorted(r.T), r.HM, verdict),
 				wantOK, verdict == nil)
 		}
